@@ -455,7 +455,15 @@ pub fn run(args: &Args) -> i32 {
                 }
                 let gen = PredGen::new(
                     m,
-                    GenCfg { cols: all_cols(m), focus: vec![], max_depth: 3, hostile_literals: true, allow_colcmp: true, contains_cols: vec![] },
+                    GenCfg {
+                        cols: all_cols(m),
+                        focus: vec![],
+                        max_depth: 3,
+                        hostile_literals: true,
+                        allow_colcmp: true,
+                        // `contains(col, 's')` leaves on a third of the string columns' leaves
+                        contains_cols: if rng.chance(1, 2) { all_cols(m).into_iter().filter(|c| class_of(&m.cols[*c].ty) == Class::Str).collect() } else { vec![] },
+                    },
                 );
                 for qi in 0..queries_per_table {
                     if !report.time_left() {
